@@ -32,7 +32,7 @@ from gverif.props import c05_lib as lib
 PRESENT = {
     "chain": ["p", "p.a", "p.b"], "chain-q": ["p", "p.a", "p.b"], "exports": ["p", "p.a", "p.b"], "exports-q": ["p", "p.a", "p.b"],
     "pkg": ["p", "p.s", "p.s.c"], "pkg-q": ["p", "p.s", "p.s.c"], "reexp": ["p", "p.a", "p.b"], "reexp-q": ["p", "p.a", "p.b"],
-    "topstar": ["p", "p.a", "p.b"], "splice": ["p", "p.a", "p.b"], "spl-down": ["p", "p.a", "p.b", "p.s"], "spl-up": ["p", "p.a", "p.b", "p.s"], "facade": ["p", "p.a", "p.b", "p.s"], "updots": ["p", "p.s", "p.s.c"], "attrall": ["p", "p.a", "p.b"], "repeat": ["p", "p.a", "p.b"], "relay": ["p", "p.a", "p.b", "p.s"],
+    "topstar": ["p", "p.a", "p.b"], "splice": ["p", "p.a", "p.b"], "spl-down": ["p", "p.a", "p.b", "p.s"], "spl-up": ["p", "p.a", "p.b", "p.s"], "facade": ["p", "p.a", "p.b", "p.s"], "updots": ["p", "p.s", "p.s.c"], "deepdots": ["p", "p.s", "p.s.c", "p.s.t"], "attrall": ["p", "p.a", "p.b"], "repeat": ["p", "p.a", "p.b"], "relay": ["p", "p.a", "p.b", "p.s"],
 }
 
 
@@ -320,8 +320,8 @@ def replay_all(run: Run, cases: list, workers: int, stats: dict):
 
 # families of each tier; the statement bound of every family is Loader.tla's MaxTotal table (Scale)
 TIERS = {
-    "quick": ["chain-q", "exports-q", "pkg-q", "reexp-q", "spl-down", "spl-up", "facade", "updots", "attrall", "relay", "repeat"],
-    "thorough": ["chain-q", "chain", "exports", "pkg", "reexp", "topstar", "splice", "spl-down", "spl-up", "facade", "updots", "attrall", "relay", "repeat"],
+    "quick": ["chain-q", "exports-q", "pkg-q", "reexp-q", "spl-down", "spl-up", "facade", "updots", "attrall", "relay", "repeat", "deepdots"],
+    "thorough": ["chain-q", "chain", "exports", "pkg", "reexp", "topstar", "splice", "spl-down", "spl-up", "facade", "updots", "attrall", "relay", "repeat", "deepdots"],
 }
 
 
